@@ -335,3 +335,27 @@ func itoa64(v int64) string {
 	}
 	return s
 }
+
+// VerifH_C05_tagsDecode: Tags.UnmarshalJSON (which goes to encoding/json directly in
+// every configuration): a document yields exactly its own tags, also when an earlier
+// document was rejected half-way (a non-string tag value) or decoded before it.
+func VerifH_C05_tagsDecode() {
+	switch vRange("before", 0, 2) {
+	case 1: // a rejected document first
+		var t0 Tags
+		err := t0.UnmarshalJSON([]byte(`{"name":"Main St","lanes":2}`))
+		vAssert(err != nil, "non-string-tag-value-rejected")
+	case 2: // an accepted document first
+		var t0 Tags
+		err := t0.UnmarshalJSON([]byte(`{"name":"Main St","lanes":"2"}`))
+		vAssert(err == nil && len(t0) == 2, "first-document-decoded")
+	}
+	var t Tags
+	err := t.UnmarshalJSON([]byte(`{"highway":"bus_stop","ref":"7"}`))
+	vReach("decoded")
+	vAssert(err == nil, "no-error")
+	t.SortByKeyValue()
+	vAssert(vSame(t, Tags{{Key: "highway", Value: "bus_stop"}, {Key: "ref", Value: "7"}}), "exactly-the-tags-of-the-document")
+	var e Tags
+	vAssert(e.UnmarshalJSON([]byte(`{}`)) == nil && len(e) == 0, "empty-object-gives-no-tags")
+}
